@@ -179,7 +179,7 @@ def r2_r3_r5(ctx, table):
         return
     fn, fi = R.FnFacts(P, wn, False), R.FnFacts(P, wi, False)
     a = [k for k in fn.allcalls if k.startswith("Ord::max(") and "leading_zeros" in k and "Div 8" in k and k.endswith(", 1)")]
-    b2 = [k for k in fi.allcalls if k.startswith("Ord::min(") and "leading_zeros" in k and "Div 8" in k and "Sub 1" in k]
+    b2 = [k for k in fi.allcalls if k.startswith("Ord::min(") and "leading_zeros" in k and "Div 8" in k and ("Sub 1" in k or k.endswith(", 7)"))]
     detail = {"write_number_length": a[:1], "write_integer_i64_offset": b2[:1]}
     if not a or not b2:
         ctx.fail(rule, "width", "the announced length (8 - lz/8, max 1) and the written octets (bytes[min(lz/8, 7)..]) are no longer "
